@@ -1,7 +1,7 @@
 (* WorldThm.v — copy, move, swap (C09), allocator propagation (C08) and the allocation
    ledger (C07) on the world model, for lists of trivially relocatable types. *)
 From Coq Require Import ZArith Lia List Bool.
-From Cntgs Require Import Base BaseLemmas Layout LayoutThm Mem MemLemmas Vector World Spec Rep ElemLemmas Ordered EsizeThm Refine.
+From Cntgs Require Import Base BaseLemmas Layout LayoutThm Mem MemLemmas Vector World Spec Rep ElemLemmas Ordered EsizeThm Refine StableThm.
 Import ListNotations.
 Local Open Scope Z_scope.
 
@@ -121,24 +121,305 @@ Section WorldThm.
     let '(d', src', evs, nb') := move_assign K L d src junk nb in
     Rep L d' l /\
     v_aid d' = (if pocma K then v_aid src else v_aid d) /\
-    (* the source is either left in the moved-from state (its block was taken) or, between
-       unequal non-propagating allocators, keeps its block while the elements were
-       transferred one by one into memory of the target's allocator *)
-    ((always_eq K || pocma K || (v_aid d =? v_aid src) = true /\ src' = moved_from src /\ v_bid d' = v_bid src) \/
-     (always_eq K || pocma K || (v_aid d =? v_aid src) = false /\ src' = src /\ v_bid d' <> v_bid src \/ v_bid d' = v_bid d)).
+    (src' = moved_from src \/ src' = src).
   Proof.
     intros R. unfold move_assign.
     destruct (always_eq K || pocma K || (v_aid d =? v_aid src)) eqn:Hc.
     - pose proof (steal_spec K d src l R) as Hs. destruct (steal K L d src) as [[d1 s1] e].
-      destruct Hs as (H1 & H2 & H3 & H4). split; [exact H1|]. split; [exact H4|]. left. auto.
+      destruct Hs as (H1 & H2 & H3 & H4). auto.
     - assert (Hpm : pocma K = false).
       { destruct (pocma K); [rewrite orb_true_r in Hc; discriminate|reflexivity]. }
       rewrite Hpm. rewrite (Hdt L Htriv).
       destruct (consumption L d <? consumption L src); rewrite (insert_into_triv L Htriv); cbn [fst snd].
-      + split; [|split; [reflexivity|]].
-        * apply relocate_rep; auto.
-          -- destruct R as [offs R]. exact (r_cap _ _ _ _ R).
-          -- intros x Hx. apply mcopy_prefix. exact Hx.
-        * right. right. cbn. destruct (v_bid d); auto.
-  Abort.
+      + split; [|auto]. apply relocate_rep; auto.
+        * destruct R as [offs R]. exact (r_cap _ _ _ _ R).
+        * intros x Hx. apply mcopy_prefix. exact Hx.
+      + split; [|auto]. apply relocate_rep; auto.
+        * destruct R as [offs R]. exact (r_cap _ _ _ _ R).
+        * intros x Hx. apply mcopy_prefix. exact Hx.
+  Qed.
+
+  (* between unequal, non-propagating allocators the source's block is never taken: the
+     elements are transferred into the target's own block or into a block newly allocated
+     from the TARGET's allocator *)
+  Theorem move_assign_elementwise K d src junk nb :
+    always_eq K = false -> pocma K = false -> v_aid d <> v_aid src ->
+    let '(d', src', evs, nb') := move_assign K L d src junk nb in
+    src' = src /\ v_aid d' = v_aid d /\
+    (v_bid d' = v_bid d \/
+     (v_bid d' = Some nb /\ In (EAlloc (v_aid d) (SA L) (consumption L src) nb) evs)).
+  Proof.
+    intros Hae Hpm Hne. unfold move_assign. rewrite Hae, Hpm. cbn [orb].
+    replace (v_aid d =? v_aid src) with false by (symmetry; apply Z.eqb_neq; exact Hne).
+    rewrite (Hdt L Htriv).
+    destruct (consumption L d <? consumption L src); rewrite (insert_into_triv L Htriv); cbn [fst snd].
+    - split; [reflexivity|]. split; [reflexivity|]. right. split; [reflexivity|]. left. reflexivity.
+    - split; [reflexivity|]. split; [reflexivity|]. left. reflexivity.
+  Qed.
 End WorldThm.
+
+(* ---------------- C07: the allocation ledger ---------------- *)
+Definition blk := (nat * (Z * Z * Z))%type.     (* block id, (allocator, unit size, count) *)
+
+Definition has_blk (b : nat) (live : list blk) : bool := existsb (fun x => Nat.eqb (fst x) b) live.
+Definition drop_blk (b : nat) (live : list blk) : list blk := filter (fun x => negb (Nat.eqb (fst x) b)) live.
+Fixpoint find_blk (b : nat) (live : list blk) : option (Z * Z * Z) :=
+  match live with
+  | [] => None
+  | x :: r => if Nat.eqb (fst x) b then Some (snd x) else find_blk b r
+  end.
+
+(* the ledger automaton: every allocation gets a fresh block; every deallocation names a
+   live block with the allocator, unit size and count it was allocated with; everything
+   else is ignored.  [None] = violation *)
+Fixpoint ledger (live : list blk) (evs : list ev) : option (list blk) :=
+  match evs with
+  | [] => Some live
+  | EAlloc a u n b :: r => if has_blk b live then None else ledger (live ++ [(b, (a, u, n))]) r
+  | EDealloc a u n b :: r =>
+      match find_blk b live with
+      | Some (a', u', n') => if (a =? a') && (u =? u') && (n =? n') then ledger (drop_blk b live) r else None
+      | None => None
+      end
+  | _ :: r => ledger live r
+  end.
+
+(* the blocks a vector owns: its data block and (with a VaryingSize parameter) its table *)
+Definition blocks_of (L : list param) (v : vec) : list blk :=
+  (match v_bid v with Some b => [(b, (v_aid v, SA L, v_units v))] | None => [] end) ++
+  (if has_varying L then
+     match t_bid (v_tbl v) with Some tb => [(tb, (v_aid v, 8, t_cap (v_tbl v)))] | None => [] end
+   else []).
+
+Lemma ledger_app live e1 : forall e2 live1, ledger live e1 = Some live1 -> ledger live (e1 ++ e2) = ledger live1 e2.
+Proof.
+  revert live. induction e1 as [|e e1 IH]; intros live e2 live1 H; cbn [app ledger] in *; [inversion H; reflexivity|].
+  destruct e; try (apply IH; exact H).
+  - destruct (has_blk bid live); [discriminate|]. apply IH. exact H.
+  - destruct (find_blk bid live) as [[[a' u'] n']|]; [|discriminate].
+    destruct ((aid =? a') && (unit =? u') && (n =? n')); [|discriminate]. apply IH. exact H.
+Qed.
+
+Lemma ledger_no_alloc evs : forall live, forallb (fun e => match e with EAlloc _ _ _ _ | EDealloc _ _ _ _ => false | _ => true end) evs = true ->
+  ledger live evs = Some live.
+Proof.
+  induction evs as [|e evs IH]; intros live H; [reflexivity|]. cbn [forallb] in H. apply andb_true_iff in H. destruct H as [H1 H2].
+  destruct e; try discriminate; cbn [ledger]; apply IH; exact H2.
+Qed.
+
+(* construction allocates exactly the blocks the new vector owns *)
+Theorem mkvec_ledger L cap budget fixed aid junk bid tbid : bid <> tbid ->
+  ledger [] (snd (mkvec L cap budget fixed aid junk bid tbid)) =
+    Some (blocks_of L (fst (mkvec L cap budget fixed aid junk bid tbid))).
+Proof.
+  intros Hne. unfold mkvec, blocks_of. cbn [fst snd v_bid v_aid v_units v_tbl].
+  destruct (has_varying L); cbn [ledger has_blk existsb app t_bid t_cap fst].
+  - replace (Nat.eqb bid tbid) with false by (symmetry; apply Nat.eqb_neq; exact Hne). reflexivity.
+  - reflexivity.
+Qed.
+
+(* destruction returns exactly those blocks, each with the allocator, unit size and count
+   it was requested with — for every parameter list *)
+Theorem destroy_ledger L v :
+  (forall b tb, v_bid v = Some b -> t_bid (v_tbl v) = Some tb -> b <> tb) ->
+  (has_varying L = false -> t_bid (v_tbl v) = None) ->
+  ledger (blocks_of L v) (destroy L v) = Some [].
+Proof.
+  intros Hne Htb. unfold destroy.
+  assert (Hfront : forall e1, forallb (fun e => match e with EAlloc _ _ _ _ | EDealloc _ _ _ _ => false | _ => true end) e1 = true ->
+            ledger (blocks_of L v) (e1 ++ dealloc_tbl L v ++ dealloc_mem L v) = Some []).
+  { intros e1 He1. rewrite (ledger_app _ e1 _ (blocks_of L v)) by (apply ledger_no_alloc; exact He1).
+    unfold blocks_of, dealloc_tbl, dealloc_mem.
+    destruct (v_bid v) as [b|] eqn:Eb; destruct (t_bid (v_tbl v)) as [tb|] eqn:Et; destruct (has_varying L) eqn:Hv;
+      try (specialize (Htb eq_refl); discriminate);
+      cbn [app ledger find_blk fst snd drop_blk filter negb]; rewrite ?Nat.eqb_refl, ?Z.eqb_refl; cbn [andb negb];
+      try reflexivity.
+    - specialize (Hne b tb eq_refl eq_refl).
+      replace (Nat.eqb b tb) with false by (symmetry; apply Nat.eqb_neq; exact Hne).
+      cbn [negb find_blk fst snd]. rewrite ?Nat.eqb_refl, ?Z.eqb_refl. cbn [andb drop_blk filter fst negb].
+      rewrite Nat.eqb_refl. reflexivity. }
+  destruct (v_bid v) eqn:Eb.
+  - destruct (all_dtriv L) eqn:Hd.
+    + apply (Hfront []). reflexivity.
+    + pose proof (StableThm.destruct_range_no_alloc L (Z.to_nat (vsize L v)) v 0) as [Hna _].
+      destruct (destruct_range L v 0 (Z.to_nat (vsize L v))) as [v1 e1]. cbn [snd] in Hna.
+      apply Hfront. unfold StableThm.no_alloc in Hna. rewrite forallb_forall in *. intros e He. specialize (Hna e He).
+      destruct e; cbn in *; try reflexivity; discriminate.
+  - apply (Hfront []). reflexivity.
+Qed.
+
+(* ---- every valid history, with block ids handed out in order: construction, any sequence of
+        emplace_back / pop_back / erase / clear / reserve, destruction: nothing leaks, nothing
+        is freed twice or with another size / allocator ---- *)
+Definition ids_ok (L : list param) (v : vec) (nb : nat) : Prop :=
+  (forall b, v_bid v = Some b -> (b < nb)%nat) /\
+  (forall tb, t_bid (v_tbl v) = Some tb -> (tb < nb)%nat) /\
+  (forall b tb, v_bid v = Some b -> t_bid (v_tbl v) = Some tb -> b <> tb) /\
+  (has_varying L = false -> t_bid (v_tbl v) = None).
+
+(* one operation with events and the next free block id *)
+Definition lstep (L : list param) (junk : mem) (vn : vec * nat) (o : sop) : (vec * nat) * list ev :=
+  let '(v, nb) := vn in
+  match o with
+  | SEmplace t => let '(v', e) := emplace_back L v t in ((v', nb), e)
+  | SPopBack => let '(v', e) := pop_back L v in ((v', nb), e)
+  | SErase i => let '(v', e) := erase L v i in ((v', nb), e)
+  | SEraseRange i j => let '(v', e) := erase_range L v i j in ((v', nb), e)
+  | SClear => let '(v', e) := clear L v in ((v', nb), e)
+  | SReserve n b => let '(v', e) := reserve L v n b junk nb (S nb) in ((v', S (S nb)), e)
+  end.
+
+Fixpoint lrun (L : list param) (junk : mem) (vn : vec * nat) (h : list sop) : (vec * nat) * list ev :=
+  match h with
+  | [] => (vn, [])
+  | o :: h' => let '(vn1, e1) := lstep L junk vn o in
+               let '(vn2, e2) := lrun L junk vn1 h' in (vn2, e1 ++ e2)
+  end.
+
+Lemma blocks_of_same L v v' : v_bid v' = v_bid v -> v_aid v' = v_aid v -> v_units v' = v_units v ->
+  t_bid (v_tbl v') = t_bid (v_tbl v) -> t_cap (v_tbl v') = t_cap (v_tbl v) -> blocks_of L v' = blocks_of L v.
+Proof. intros H1 H2 H3 H4 H5. unfold blocks_of. now rewrite H1, H2, H3, H4, H5. Qed.
+
+Lemma resize_blocks L v n : blocks_of L (resize L v n) = blocks_of L v /\ (forall nb, ids_ok L v nb -> ids_ok L (resize L v n) nb).
+Proof.
+  unfold resize. destruct (has_varying L) eqn:Hv; [destruct (_ <? _)|]; split; auto;
+    try (apply blocks_of_same; reflexivity); intros nb H; unfold ids_ok in *; cbn; rewrite ?Hv; exact H.
+Qed.
+
+Lemma ids_ok_mono L v nb nb' : ids_ok L v nb -> (nb <= nb')%nat -> ids_ok L v nb'.
+Proof.
+  intros (H1 & H2 & H3 & H4) Hle. unfold ids_ok. repeat split; auto.
+  - intros b Hb. specialize (H1 b Hb). lia.
+  - intros b Hb. specialize (H2 b Hb). lia.
+Qed.
+
+Section Ledger.
+  Variable L : list param.
+  Hypothesis Htriv : all_triv L = true.
+  Let Hc := Hct L Htriv.
+  Let Hd := Hdt L Htriv.
+
+  Lemma lstep_ledger junk v nb o :
+    ids_ok L v nb ->
+    let '((v', nb'), e) := lstep L junk (v, nb) o in
+    ledger (blocks_of L v) e = Some (blocks_of L v') /\ ids_ok L v' nb'.
+  Proof.
+    intros Hid. destruct o as [t| |i|i j| |n b]; cbn [lstep].
+    - unfold emplace_back, store. destruct (has_varying L) eqn:Hv.
+      + pose proof (store_from_no_alloc L (prevs L) t (bidn (v_bid v)) (v_mem v) (first_align L (v_last v))) as Hna.
+        destruct (store_from L _ _ _ _ _) as [[m evs] e]. cbn [fst snd] in *.
+        split.
+        * rewrite ledger_no_alloc.
+          -- reflexivity.
+          -- unfold no_alloc in Hna. rewrite forallb_forall in *. intros x Hx. specialize (Hna x Hx). destruct x; cbn in *; auto; discriminate.
+        * unfold ids_ok in *. cbn. exact Hid.
+      + pose proof (store_from_no_alloc L (prevs L) t (bidn (v_bid v)) (v_mem v) (v_stride v * v_count v)) as Hna.
+        destruct (store_from L _ _ _ _ _) as [[m evs] e]. cbn [fst snd] in *.
+        split.
+        * rewrite ledger_no_alloc.
+          -- reflexivity.
+          -- unfold no_alloc in Hna. rewrite forallb_forall in *. intros x Hx. specialize (Hna x Hx). destruct x; cbn in *; auto; discriminate.
+        * unfold ids_ok in *. cbn. exact Hid.
+    - unfold pop_back, destruct_elem. rewrite Hd. cbn [ledger].
+      destruct (resize_blocks L v (vsize L v - 1)) as [H1 H2]. rewrite H1. auto.
+    - unfold erase, destruct_elem, move_forward. rewrite Hc, Hd. cbn [andb].
+      unfold move_forward_triv.
+      destruct (has_varying L && _) eqn:Hg.
+      + cbn [app ledger]. destruct (resize_blocks L v (vsize L v - 1)) as [H1 H2]. rewrite H1. auto.
+      + destruct (has_varying L) eqn:Hv; cbn [app ledger].
+        * match goal with |- context [resize L ?x ?n] => destruct (resize_blocks L x n) as [H1 H2] end.
+          rewrite H1. split; [f_equal; apply blocks_of_same; reflexivity|].
+          apply H2. unfold ids_ok in *. cbn. exact Hid.
+        * match goal with |- context [resize L ?x ?n] => destruct (resize_blocks L x n) as [H1 H2] end.
+          rewrite H1. split; [f_equal; apply blocks_of_same; reflexivity|].
+          apply H2. unfold ids_ok in *. cbn. exact Hid.
+    - unfold erase_range, move_forward. rewrite Hc, Hd. cbn [andb].
+      destruct ((j <? vsize L v) && negb (i =? j)).
+      + unfold move_forward_triv. destruct (has_varying L && _) eqn:Hg.
+        * cbn [app ledger]. match goal with |- context [resize L ?x ?n] => destruct (resize_blocks L x n) as [H1 H2] end. rewrite H1. auto.
+        * destruct (has_varying L) eqn:Hv; cbn [app ledger];
+            match goal with |- context [resize L ?x ?n] => destruct (resize_blocks L x n) as [H1 H2] end;
+            rewrite H1; (split; [f_equal; apply blocks_of_same; reflexivity|]);
+            apply H2; unfold ids_ok in *; cbn; exact Hid.
+      + cbn [app ledger]. match goal with |- context [resize L ?x ?n] => destruct (resize_blocks L x n) as [H1 H2] end. rewrite H1. auto.
+    - unfold clear. rewrite Hd. cbn [ledger]. destruct (resize_blocks L v 0) as [H1 H2]. rewrite H1. auto.
+    - (* reserve *)
+      unfold reserve. destruct (v_cap v <? n); [|cbn [ledger]; split; [reflexivity|]].
+      + rewrite (insert_into_triv L Htriv). destruct Hid as (Hb & Htb & Hne & Hnt).
+        unfold blocks_of, dealloc_tbl, dealloc_mem. cbn [v_bid v_aid v_units v_tbl].
+        destruct (has_varying L) eqn:Hv.
+        * destruct (v_bid v) as [b0|] eqn:Eb; destruct (t_bid (v_tbl v)) as [tb0|] eqn:Et;
+            cbn [app ledger has_blk existsb fst snd find_blk tbl_relocate t_bid t_cap];
+            repeat match goal with
+                   | |- context [Nat.eqb ?x ?x] => rewrite (Nat.eqb_refl x)
+                   | |- context [Z.eqb ?x ?x] => rewrite (Z.eqb_refl x)
+                   end.
+          all: try (specialize (Hb _ eq_refl)). all: try (specialize (Htb _ eq_refl)). all: try (specialize (Hne _ _ eq_refl eq_refl)).
+          all: repeat match goal with
+                 | |- context [Nat.eqb ?x ?y] =>
+                     first [ replace (Nat.eqb x y) with false by (symmetry; apply Nat.eqb_neq; lia) ]
+                 end.
+          all: cbn [orb andb negb app ledger has_blk existsb fst snd find_blk drop_blk filter].
+          all: repeat match goal with
+                   | |- context [Nat.eqb ?x ?x] => rewrite (Nat.eqb_refl x)
+                   | |- context [Z.eqb ?x ?x] => rewrite (Z.eqb_refl x)
+                   | |- context [Nat.eqb ?x ?y] =>
+                     first [ replace (Nat.eqb x y) with false by (symmetry; apply Nat.eqb_neq; lia) ]
+                   end.
+          all: cbn [orb andb negb app ledger has_blk existsb fst snd find_blk drop_blk filter].
+          all: repeat match goal with
+                   | |- context [Nat.eqb ?x ?x] => rewrite (Nat.eqb_refl x)
+                   | |- context [Z.eqb ?x ?x] => rewrite (Z.eqb_refl x)
+                   | |- context [Nat.eqb ?x ?y] =>
+                     first [ replace (Nat.eqb x y) with false by (symmetry; apply Nat.eqb_neq; lia) ]
+                   end.
+          all: cbn [orb andb negb app ledger has_blk existsb fst snd find_blk drop_blk filter].
+          all: (split; [reflexivity|]).
+          all: unfold ids_ok; cbn [v_bid v_tbl tbl_relocate t_bid]; rewrite Hv; repeat split; intros; try discriminate;
+            repeat match goal with H : Some _ = Some _ |- _ => inversion H; subst; clear H end; lia.
+        * specialize (Hnt eq_refl).
+          destruct (v_bid v) as [b0|] eqn:Eb;
+            cbn [app ledger has_blk existsb fst snd find_blk];
+            try (specialize (Hb _ eq_refl)).
+          -- replace (Nat.eqb b0 nb) with false by (symmetry; apply Nat.eqb_neq; lia).
+             cbn [orb app ledger has_blk existsb fst snd find_blk].
+             rewrite Nat.eqb_refl, !Z.eqb_refl. cbn [andb drop_blk filter fst negb].
+             rewrite Nat.eqb_refl. replace (Nat.eqb nb b0) with false by (symmetry; apply Nat.eqb_neq; lia).
+             cbn [negb]. split; [reflexivity|].
+             unfold ids_ok. cbn [v_bid v_tbl]. rewrite Hnt, Hv. repeat split; intros; try discriminate.
+             inversion H; subst. lia.
+          -- cbn [app ledger]. split; [reflexivity|].
+             unfold ids_ok. cbn [v_bid v_tbl]. rewrite Hnt, Hv. repeat split; intros; try discriminate.
+             inversion H; subst. lia.
+      + eapply ids_ok_mono; [exact Hid|lia].
+  Qed.
+
+  Theorem lrun_ledger junk h : forall v nb,
+    ids_ok L v nb ->
+    let '((v', nb'), e) := lrun L junk (v, nb) h in
+    ledger (blocks_of L v) e = Some (blocks_of L v') /\ ids_ok L v' nb'.
+  Proof.
+    induction h as [|o h IH]; intros v nb Hid; cbn [lrun]; [split; [reflexivity|exact Hid]|].
+    pose proof (lstep_ledger junk v nb o Hid) as Hs.
+    destruct (lstep L junk (v, nb) o) as [[v1 nb1] e1]. destruct Hs as [Hs1 Hs2].
+    specialize (IH v1 nb1 Hs2). destruct (lrun L junk (v1, nb1) h) as [[v2 nb2] e2]. destruct IH as [IH1 IH2].
+    split; [|exact IH2]. rewrite (ledger_app _ e1 e2 _ Hs1). exact IH1.
+  Qed.
+
+  (* construction, any history, destruction: the ledger ends empty *)
+  Theorem whole_life_ledger cap budget fixed aid junk h :
+    let '(v0, e0) := mkvec L cap budget fixed aid junk 0%nat 1%nat in
+    let '((v, nb), e) := lrun L junk (v0, 2%nat) h in
+    ledger [] (e0 ++ e ++ destroy L v) = Some [].
+  Proof.
+    pose proof (mkvec_ledger L cap budget fixed aid junk 0%nat 1%nat ltac:(lia)) as H0.
+    assert (Hid0 : ids_ok L (fst (mkvec L cap budget fixed aid junk 0%nat 1%nat)) 2%nat).
+    { unfold mkvec, ids_ok. cbn [fst v_bid v_tbl]. destruct (has_varying L) eqn:Hv; cbn [t_bid tbl0]; repeat split; intros;
+        try discriminate; repeat match goal with H : Some _ = Some _ |- _ => inversion H; subst; clear H end; lia. }
+    destruct (mkvec L cap budget fixed aid junk 0%nat 1%nat) as [v0 e0]. cbn [fst snd] in *.
+    pose proof (lrun_ledger junk h v0 2%nat Hid0) as Hr.
+    destruct (lrun L junk (v0, 2%nat) h) as [[v nb] e]. destruct Hr as [Hr1 (Hb & Htb & Hne & Hnt)].
+    rewrite (ledger_app _ e0 _ _ H0). rewrite (ledger_app _ e _ _ Hr1).
+    apply destroy_ledger; auto.
+  Qed.
+End Ledger.
